@@ -1,10 +1,12 @@
 ---------------------------- MODULE MC_ParExtract ----------------------------
 (* Stage (A) for C09: every schedule of every call with |req| <= MaxLen names over {a, b, x} (x is not *)
 (* in the archive: missing names at every position, duplicates), 1..MaxT workers, unbatched and       *)
-(* batch sizes 1..MaxB, skip_errors on and off.                                                        *)
+(* batch sizes 1..MaxB, skip_errors on and off; then the archive is replaced (generation 2: b is gone, x is new, a has other    *)
+(* contents) and a second call is made by the same workers.                                                        *)
 EXTENDS ParExtract
 CONSTANTS MaxLen, MaxT, MaxB
 Alphabet == {"a", "b", "x"}
+MCPresentAt == <<{"a", "b"}, {"a", "x"}>>       \* generation 1, generation 2
 Reqs == UNION {[1..n -> Alphabet] : n \in 0..(MaxLen - 1)} \cup [1..MaxLen -> {"a", "x"}]
 Init == \E req \in Reqs, t \in 1..MaxT, b \in 0..MaxB, skip \in BOOLEAN : Start(req, t, b, skip)
 DoTake    == \E w \in Workers, k \in Tasks : TakeTask(w, k)
@@ -13,5 +15,8 @@ DoReadOne == \E w \in Workers : ReadOne(w)
 DoFail    == \E w \in Workers : FailFast(w)
 DoSkip    == \E k \in Tasks : SkipTask(k)
 DoCollect == Collect
-Next == DoTake \/ DoSeek \/ DoReadOne \/ DoFail \/ DoSkip \/ DoCollect
+\* the next call on the replaced archive: the requests that tell generations apart (a name that is gone, one that is new)
+Reqs2     == {<<>>, <<"a">>, <<"b">>, <<"x">>, <<"a", "b">>, <<"x", "a">>, <<"b", "a", "x">>}
+DoReplace == \E req \in Reqs2 : ReplaceAndCall(req)
+Next == DoTake \/ DoSeek \/ DoReadOne \/ DoFail \/ DoSkip \/ DoCollect \/ DoReplace
 =============================================================================
